@@ -593,8 +593,10 @@ class LangServer:
             # Module names only (USE statement)
             for key in self.obj_tree:
                 candidate = self.obj_tree[key][0]
+                # (a PROGRAM is also a Module object but cannot be USEd)
                 if (
                     candidate.get_type() == MODULE_TYPE_ID
+                    and candidate.get_desc() == "MODULE"
                 ) and candidate.name.lower().startswith(var_prefix):
                     item_list.append(build_comp(candidate, name_only=True))
             return item_list
